@@ -43,3 +43,31 @@ Theorem C16_only_reflected_swap :
   forallb (fun e => let '(n, _, sw, _) := e in implb sw (is_reflected n)) mv_methods = true.
 Proof. vm_compute. reflexivity. Qed.
 Print Assumptions C16_only_reflected_swap.
+
+(* ------------------------------------------------------------------------------------------------
+   element-wise action on array-valued coefficients: an array-valued coefficient is a function
+   idx -> R, the operators run on the pointwise structure pw_ops, and indexing (evaluation at idx)
+   commutes LITERALLY with every operator.  Theory/Natural.v (no extensionality, no ring laws). *)
+From KV Require Import Model.All Model.Composite Theory.Natural.
+
+Theorem C16_index_commutes : forall (I R : Type) (O : ops R) (i : I) A (x y : mv (I -> R)),
+  let at_i := map_mv (fun f : I -> R => f i) in
+  at_i (gp (pw_ops I O) A x y) = gp O A (at_i x) (at_i y) /\
+  at_i (op (pw_ops I O) A x y) = op O A (at_i x) (at_i y) /\
+  at_i (ip (pw_ops I O) A x y) = ip O A (at_i x) (at_i y) /\
+  at_i (rp (pw_ops I O) A x y) = rp O A (at_i x) (at_i y) /\
+  at_i (add (pw_ops I O) A x y) = add O A (at_i x) (at_i y) /\
+  at_i (sub (pw_ops I O) A x y) = sub O A (at_i x) (at_i y) /\
+  at_i (neg (pw_ops I O) A x) = neg O A (at_i x) /\
+  at_i (reverse (pw_ops I O) A x) = reverse O A (at_i x) /\
+  at_i (hodge (pw_ops I O) A x) = hodge O A (at_i x) /\
+  at_i (sw (pw_ops I O) A x y) = sw O A (at_i x) (at_i y) /\
+  at_i (proj (pw_ops I O) A x y) = proj O A (at_i x) (at_i y) /\
+  at_i (normsq (pw_ops I O) A x) = normsq O A (at_i x).
+Proof.
+  intros. subst at_i.
+  repeat split; [apply index_commutes_gp | apply index_commutes_op | apply index_commutes_ip | apply index_commutes_rp
+                | apply index_commutes_add | apply index_commutes_sub | apply index_commutes_neg | apply index_commutes_reverse
+                | apply index_commutes_hodge | apply index_commutes_sw | apply index_commutes_proj | apply index_commutes_normsq].
+Qed.
+Print Assumptions C16_index_commutes.
